@@ -262,6 +262,9 @@ func c10Restore(sc *C10Sc, env *Env) *Violation {
 		env.Fire(fmt.Sprintf("device-swap-mode-%d", mode))
 		env.Steps += uint64(w.Steps)
 	}
+	if v := c10ReuseObject(w, ref, &refMem, env); v != nil {
+		return v
+	}
 	// crash/restart at boundary k: the original continues (= ref), a CPU rebuilt
 	// from copies of the durable state must stay equal at every later boundary
 	walker := c10Machine(w)
@@ -313,6 +316,38 @@ func c10Restore(sc *C10Sc, env *Env) *Violation {
 		}
 	}
 	env.NonTrivial = true
+	return nil
+}
+
+// c10ReuseObject: the host keeps the CPU *object* that has a history behind it
+// but resets every public field to the world's initial configuration (fresh
+// devices, initial States, no request, HALT false): from there it must behave
+// like a new CPU, i.e. like the reference run from boundary 0.
+func c10ReuseObject(w *C10World, ref []c10Sig, refMem *[65536]uint8, env *Env) *Violation {
+	for _, k := range []int{w.Steps / 3, w.Steps} {
+		old := c10Machine(w)
+		for i := 0; i < k; i++ {
+			old.Step()
+		}
+		m := c10Machine(w)
+		c := old.CPU // the used object
+		c.States = m.CPU.States
+		c.Memory, c.IO = m.CPU.Memory, m.CPU.IO
+		c.RETNHandler, c.RETIHandler = m.CPU.RETNHandler, m.CPU.RETIHandler
+		c.Interrupt, c.HALT, c.BreakPoints = nil, false, m.CPU.BreakPoints
+		m.CPU = c
+		for j := 0; j < w.Steps; j++ {
+			m.Step()
+			if d := ref[j+1].diff(sigOf(m)); d != "" {
+				return viol("object-reuse", "a CPU object that had executed %d Steps of this world, then had every public field reset to the initial configuration, differs from a new CPU at boundary %d (new!=reused):%s", k, j+1, d)
+			}
+		}
+		if m.Bus.Mem != *refMem {
+			return viol("object-reuse", "reused CPU object (after %d Steps of history) ends with a different memory image", k)
+		}
+		env.Fire("cpu-object-reused-after-public-reset")
+		env.Steps += uint64(k + w.Steps)
+	}
 	return nil
 }
 
